@@ -9965,6 +9965,11 @@ func (p *parser) substituteSingleUseSymbolInExpr(
 					return expr, status
 				}
 			}
+
+			// Stop now because property spread has side effects (it can run getters)
+			if property.Kind == js_ast.PropertySpread {
+				return expr, substituteFailure
+			}
 		}
 
 	case *js_ast.ETemplate:
